@@ -266,6 +266,34 @@ def prop_c17affine(d, p, q, k):
     return "ok"
 
 
+@op("prop.c17neg")
+def prop_c17neg(d, p, q):
+    """negation in the Jacobian class, for every representation of P incl. those of infinity: -P is the inverse of the group
+    law, -(-P) = P, P + (-P) = infinity, (-P) + Q = Q - P, 2(-P) = -(2P), 3 * (-P) = -(3P)"""
+    c = refcurve(d)
+    fp, n = domain(d)[0], domain(d)[3]
+    a, b = affine_of(c, p), affine_of(c, q)
+    P, Q = parse_pt(fp, p, n), parse_pt(fp, q, n)
+    if P is INFINITY:
+        return "ok n/a"
+
+    def aff(R):
+        return None if (R is INFINITY or R == INFINITY) else (int(R.x()) % c["p"], int(R.y()) % c["p"])
+    try:
+        N = -P
+        for what, got, want in (("-P", aff(N), refec.neg(c, a)), ("-(-P)", aff(-N), a), ("P + (-P)", aff(P + N), None),
+                                ("(-P) + P", aff(N + P), None), ("(-P) + Q", aff(N + Q) if Q is not INFINITY else aff(N), refec.add(c, refec.neg(c, a), b)),
+                                ("Q + (-P)", aff(Q + N) if Q is not INFINITY else aff(N), refec.add(c, refec.neg(c, a), b)),
+                                ("2 * (-P)", aff(N.double()), refec.neg(c, refec.add(c, a, a))),
+                                ("3 * (-P)", aff(N * 3), refec.neg(c, refec.mul(c, 3, a))),
+                                ("(-P) == infinity", (N == INFINITY), a is None)):
+            if got != want:
+                return f"FAIL {what} = {got} but the group law gives {want}"
+    except Exception as e:
+        return f"FAIL negation / arithmetic with the negated point raises {type(e).__name__}: {e}"
+    return "ok"
+
+
 @op("prop.c17double")
 def prop_c17double(d, p):
     c = refcurve(d)
